@@ -166,3 +166,7 @@ _extend('C02', 'ADDED (unit I-scan): IndexData::range_scan, in-memory arm, IS no
         'called with bounds it panics on. The disk-backed arm (indexes created on >= 100000 rows) is not under contract.')
 _extend('C08', 'ADDED (unit I-scan): rows produced by an index range scan come in ascending key order (first key column non-decreasing), which is what index-provided ORDER BY relies on.')
 _extend('C24', 'ADDED (unit I-scan): IndexData::range_scan never calls BTreeMap::range with an inverted range or two equal Excluded bounds (its two documented panics).')
+
+_extend('C02', 'ADDED (unit I-maint): the per-index maintenance step of INSERT / UPDATE / DELETE on the CREATE INDEX indexes (in-memory arm) has exactly the stated effect on the key -> positions map, '
+        'with key components built from the named column, prefix-truncated and normalized; the loop over the index registry around it is not under contract. Prefix indexes are '
+        'used as a plain row source only (fix 5f8dd171; execute_index_scan is glue outside the units).')
